@@ -221,4 +221,31 @@ Proof.
   { unfold inner, normsq, sq. apply SI_ext; intros j Hj. now rewrite <- HG. }
   rewrite E. unfold two. ring.
 Qed.
+(* ------------------------------------------------------------------------------------------
+   7. tucker_normalize as a relation (round 5): rescaling the columns of every factor and letting the core absorb
+      the scales does not change any entry of the represented tensor; every order, all shapes and ranks
+   ------------------------------------------------------------------------------------------ *)
+Lemma prodl2_scaled : forall s rs us us' ds idx j, tscaled Op s rs us us' ds -> inb s idx -> inb rs j ->
+  prodl2 Op us idx j = proddl Op ds j *f prodl2 Op us' idx j.
+Proof.
+  induction s as [|n s IH]; intros [|r rs] [|u us] [|u' us'] [|d ds] idx j Hs Hi Hj; simpl in Hs; try tauto.
+  - destruct idx, j; simpl in Hi, Hj; try tauto. simpl. ring.
+  - destruct idx as [|i idx], j as [|a j]; simpl in Hi, Hj; try tauto.
+    destruct Hs as [H1 H2], Hi as [Hi1 Hi2], Hj as [Hj1 Hj2].
+    cbn [prodl2 proddl]. rewrite (H1 i a Hi1 Hj1), (IH rs us us' ds idx j H2 Hi2 Hj2). ring.
+Qed.
+Theorem tucker_entry_rescale s rs (G G' : list nat -> F) us us' ds :
+  tscaled Op s rs us us' ds -> (forall j, inb rs j -> G' j = G j *f proddl Op ds j) ->
+  forall idx, inb s idx -> tucker_entry Op rs G' us' idx = tucker_entry Op rs G us idx.
+Proof.
+  intros Hs HG idx Hi. unfold tucker_entry. apply SI_ext; intros j Hj.
+  rewrite (HG j Hj), (prodl2_scaled s rs us us' ds idx j Hs Hi Hj). ring.
+Qed.
+(* hence the squared residual is the same before and after the normalisation *)
+Corollary tucker_rescale_err2 s rs X (G G' : list nat -> F) us us' ds :
+  tscaled Op s rs us us' ds -> (forall j, inb rs j -> G' j = G j *f proddl Op ds j) ->
+  dist2 Op s X (tucker_entry Op rs G' us') = dist2 Op s X (tucker_entry Op rs G us).
+Proof.
+  intros Hs HG. unfold dist2. apply SI_ext; intros idx Hi. now rewrite (tucker_entry_rescale s rs G G' us us' ds Hs HG idx Hi).
+Qed.
 End P.
